@@ -391,7 +391,7 @@ CHECKS["C18"] = {
              "end_to_end: a current client against a v0.0.17 server and a v0.0.17 client against a current server over the simulated transport (drawn chunking): 1..4 unary/stream echo RPCs with payloads up to 70 KB; the current client cancels mid-stream in both modes "
              "(the soft cancel's control packet must leave the v0.0.17 side undisturbed); unknown-kind control packets are injected between RPCs. "
              "control_anywhere (metamorphic, against the current server): a wire-level client plays a script of 1..3 unary/stream echo calls (optional metadata packet, 0..3 messages up to 3000 bytes, half-close) twice, plainly and with unknown-kind control packets "
-             "(kinds 8/9/13/31/33/62/63, one or two frames) inserted at drawn places - ahead of the call, between metadata and invoke, between messages, after the half-close - with the transport drained after every packet or after the whole call; "
+             "(kinds 8/9/13/31/33/62/63, one or two frames) inserted at drawn places - ahead of the call, between metadata and invoke, between messages, after the half-close (addressed to the running stream, or after its last packet to the stream that has not been invoked yet) - with the transport drained after every packet or after the whole call; "
              "the packets the server writes must be identical both times and the server must still be serving. "
              "Non-trivial: >= 2 packets with a multi-frame or control packet (wire); a non-empty map (metadata); >= 2 RPCs, a soft cancel or an injected control packet (end to end); at least one control packet inserted (control_anywhere)."),
     "assumptions": ["verif/old/drpc is a verbatim copy of storj.io/drpc@v0.0.17 from the module cache with only the import path renamed (it needs github.com/gogo/protobuf and monkit, both in the module cache)",
